@@ -37,8 +37,9 @@ using blas::filling;
 
 template<class Array2D, class TAU, class Allocator>
 auto geqrf(Array2D&& aa, TAU& tau, Allocator alloc) -> Array2D&& {
-//  assert( stride(~a) == 1);
+	assert( (~aa).stride() == 1 );  // LAPACK sees the transpose: rows of aa must be contiguous
 	assert( size(tau) == std::min(size(~aa), size(aa)) );
+	assert( tau.stride() == 1 );
 
 	double dwork;  // NOLINT(cppcoreguidelines-init-variables) delayed initialization
 	int    info;   // NOLINT(cppcoreguidelines-init-variables) delayed initialization
